@@ -402,6 +402,48 @@ impl ConsumerGroup {
     }
 }
 
+#[cfg(feature = "verif")]
+impl ConsumerGroup {
+    /// Read-only consistency check of the pending indexes and counters. Returns the pending
+    /// set as (id, consumer, delivery_count) in id order, the per-consumer counters and the
+    /// last-delivered cursor.
+    pub fn verif_check_consistency(&self) -> std::result::Result<(Vec<((u64, u64), String, u32)>, Vec<(String, usize)>, (u64, u64)), String> {
+        let pending = self.pending.try_read().map_err(|_| "pending lock held".to_string())?;
+        let consumers = self.consumers.try_read().map_err(|_| "consumers lock held".to_string())?;
+        let mut by_consumer: HashMap<String, Vec<StreamId>> = HashMap::new();
+        let mut list = Vec::new();
+        for (id, e) in pending.entries_by_id.iter() {
+            if e.id != *id { return Err(format!("entry keyed {} holds id {}", id, e.id)); }
+            by_consumer.entry(e.consumer.clone()).or_insert_with(Vec::new).push(*id);
+            list.push(((id.millis(), id.seq()), e.consumer.clone(), e.delivery_count));
+        }
+        for (c, ids) in pending.entries_by_consumer.iter() {
+            let mut a = ids.clone(); a.sort();
+            let mut b = by_consumer.get(c).cloned().unwrap_or_default(); b.sort();
+            if a != b { return Err(format!("consumer index for {} has {} ids, id index has {}", c, a.len(), b.len())); }
+        }
+        for (c, ids) in by_consumer.iter() {
+            if !pending.entries_by_consumer.contains_key(c) { return Err(format!("consumer {} owns {} pending ids but has no consumer index", c, ids.len())); }
+        }
+        if pending.min_pending_id != pending.entries_by_id.keys().next().cloned() { return Err("min_pending_id stale".into()); }
+        if pending.max_pending_id != pending.entries_by_id.keys().next_back().cloned() { return Err("max_pending_id stale".into()); }
+        let total = *self.total_pending.lock().unwrap();
+        if total != pending.entries_by_id.len() { return Err(format!("total_pending {} but {} entries pending", total, pending.entries_by_id.len())); }
+        let mut counts = Vec::new();
+        for (name, c) in consumers.iter() {
+            let actual = by_consumer.get(name).map(|v| v.len()).unwrap_or(0);
+            if c.pending_count != actual { return Err(format!("consumer {} pending_count {} but owns {}", name, c.pending_count, actual)); }
+            counts.push((name.clone(), c.pending_count));
+        }
+        for c in by_consumer.keys() {
+            if !consumers.contains_key(c) { return Err(format!("pending entries owned by unknown consumer {}", c)); }
+        }
+        counts.sort();
+        let last = *self.last_delivered_id.lock().unwrap();
+        Ok((list, counts, (last.millis(), last.seq())))
+    }
+}
+
 impl PendingEntryList {
     /// Create a new pending entry list
     pub fn new() -> Self {
